@@ -8,6 +8,7 @@
   operation lists; the tie to the Python code is `harness/corr_C08.py`.
 -/
 import Aegean.Proofs.C08Refine
+import Aegean.Proofs.C08SessionThm
 
 namespace Aegean.Properties.C08
 open Aegean.Model.C08 Aegean.Proofs.C08
@@ -270,6 +271,79 @@ theorem queries_are_readonly {r : Region} {qop : Op} (hi : Inv r) (hq : IsQuery 
     · rw [← hrel'.2 q]; exact mem_absList'
     · rw [← b1.2 q, ← b2.2 q]
   · cases qop <;> first | exact hq.elim | (simp [step] at h1)
+
+/-! ### several objects and `.mim` files -/
+
+def SessResEq (strict : Prop) : Except SessErr Obs → Except SSessErr SObs → Prop
+  | .ok o, .ok so => ObsEq strict o so
+  | .error e, .error e' => sessErrMap e = e'
+  | _, _ => False
+
+theorem sessRun_cons_ok {s s' : Session} {op : SessOp} {o : Obs} (ops : List SessOp)
+    (h : sessStep s op = .ok (s', o)) :
+    sessRun s (op :: ops) = ((sessRun s' ops).1, .ok o :: (sessRun s' ops).2) := by
+  simp only [sessRun, h]
+
+theorem sessRun_cons_err {s : Session} {op : SessOp} {e : SessErr} (ops : List SessOp)
+    (h : sessStep s op = .error e) :
+    sessRun s (op :: ops) = ((sessRun s ops).1, .error e :: (sessRun s ops).2) := by
+  simp only [sessRun, h]
+
+theorem ssessRun_cons_ok {s s' : SSess} {op : SSessOp} {o : SObs} (ops : List SSessOp)
+    (h : Aegean.Spec.C08.sessStep s op = .ok (s', o)) :
+    Aegean.Spec.C08.sessRun s (op :: ops) =
+      ((Aegean.Spec.C08.sessRun s' ops).1, .ok o :: (Aegean.Spec.C08.sessRun s' ops).2) := by
+  simp only [Aegean.Spec.C08.sessRun, h]
+
+theorem ssessRun_cons_err {s : SSess} {op : SSessOp} {e : SSessErr} (ops : List SSessOp)
+    (h : Aegean.Spec.C08.sessStep s op = .error e) :
+    Aegean.Spec.C08.sessRun s (op :: ops) =
+      ((Aegean.Spec.C08.sessRun s ops).1, .error e :: (Aegean.Spec.C08.sessRun s ops).2) := by
+  simp only [Aegean.Spec.C08.sessRun, h]
+
+/-- **sessions_refine**: histories over several region objects — operations on the current object, `save f`,
+    `load f` (a fresh region from the file), and union / without / intersect / symmetric_difference with an
+    operand loaded from a file — refine the Spec in which files hold sky *sets*: every observation equals the
+    Spec's and the relation (current object and every file) is kept.  `strict` as in `run_refines`. -/
+theorem sessions_refine (strict : Prop) : ∀ (ops : List SessOp) (s : Session) (t : SSess), SRel strict s t →
+    (∀ op, op ∈ ops → SessOpOk op) → (strict → ∀ op, op ∈ ops → SessNormalising op) →
+    SRel strict (sessRun s ops).1 (Aegean.Spec.C08.sessRun t (ops.map absSessOp)).1 ∧
+      AllMatch (SessResEq strict) (sessRun s ops).2 (Aegean.Spec.C08.sessRun t (ops.map absSessOp)).2
+  | [], _, _, h, _, _ => ⟨h, trivial⟩
+  | op :: ops, s, t, h, hok, hn => by
+    have hok2 : ∀ op', op' ∈ ops → SessOpOk op' := fun op' h' => hok op' (List.mem_cons_of_mem _ h')
+    have hn2 : strict → ∀ op', op' ∈ ops → SessNormalising op' := fun hp op' h' => hn hp op' (List.mem_cons_of_mem _ h')
+    rcases sess_step_refines op h (hok op (List.mem_cons_self ..)) (fun hp => hn hp op (List.mem_cons_self ..)) with
+      ⟨s', ob, t', sob, h1, h2, hrel, hobs⟩ | ⟨e, h1, h2⟩
+    · obtain ⟨a, b⟩ := sessions_refine strict ops s' t' hrel hok2 hn2
+      rw [List.map_cons, sessRun_cons_ok ops h1, ssessRun_cons_ok _ h2]
+      exact ⟨a, hobs, b⟩
+    · obtain ⟨a, b⟩ := sessions_refine strict ops s t h hok2 hn2
+      rw [List.map_cons, sessRun_cons_err ops h1, ssessRun_cons_err _ h2]
+      exact ⟨a, rfl, b⟩
+
+/-- a session that starts with one fresh region and no files is related to the Spec's empty session -/
+theorem srel_init (strict : Prop) {m : Nat} (h : 1 ≤ m) :
+    SRel strict ⟨empty m, fun _ => none⟩ ⟨⟨m, []⟩, fun _ => none⟩ :=
+  ⟨valid_empty h, ⟨rfl, fun q => ⟨fun hq => by simp at hq, fun hq => (abs_empty m q hq).elim⟩⟩,
+    fun _ => noDC_empty m, fun _ => trivial⟩
+
+/-- **load_returns_saved**: after `save f`, whatever history follows that does not write `f` again — operations
+    on this or other objects obtained by loading, queries, operations that load `f` as their operand (and demote
+    that operand) — `load f` yields *exactly* the region that was saved: a fresh object, equal in pixel dictionary
+    and cache state, hence with the observations the saved region had. -/
+theorem load_returns_saved (s : Session) (f : Nat) (ops : List SessOp) (h : ∀ op, op ∈ ops → op ≠ .save f) :
+    ∃ s1, (sessRun s (.save f :: ops)).1 = s1 ∧
+      sessStep s1 (.load f) = .ok ({ s1 with cur := s.cur }, .none) :=
+  Aegean.Proofs.C08.load_returns_saved s f ops h
+
+/-- save; load; remove a pixel from the loaded copy; load again: the second copy is the saved region -/
+example :
+    let s0 : Session := ⟨renorm (addPixels (empty 3) [0, 1, 9] 3), fun _ => none⟩
+    let o : Region := { m := 3, pd := fun d => if d = 3 then [1] else [], cached := false }
+    ((sessRun s0 [.save 0, .load 0, .op (.without o), .load 0]).1.cur.pd 3,
+     (sessRun s0 [.save 0, .load 0, .op (.without o)]).1.cur.pd 3) = ([0, 1, 9], [0, 9]) := by
+  decide +kernel
 
 /-! ### non-vacuity -/
 
